@@ -138,6 +138,7 @@ DEFAULT_BBS = {
     "ff": {"inputs": ["clk", "d"], "outputs": ["q"]},
     "blk": {"inputs": ["a", "b"], "outputs": ["y", "z"]},
     "CELL1": {"inputs": ["A"], "outputs": ["Z"]},
+    "obs": {"inputs": ["q", "Z"], "outputs": ["d"]},  # pin names of `ff` / `CELL1` with the opposite direction
 }
 
 
